@@ -26,13 +26,8 @@ pub open spec fn m_of(p: P4) -> Element { Element { x: fq_of(p.x), y: fq_of(p.y)
 pub open spec fn decode_result_min(b: Seq<u8>) -> Result<Element, EncodingError> {
     match decode_bytes_spec(b) { Some(p) => Ok(m_of(p)), None => Err(EncodingError::InvalidEncoding) }
 }
-impl Fq {
-    // C09: callers rely on the four-case contract only
-    #[verifier::external_body]
-    pub fn non_arkworks_sqrt_ratio_zeta(num: &Self, den: &Self) -> (r: (bool, Self))
-        ensures r.0 == isqrt_flag(num.val(), den.val()), r.1.val() == isqrt_root(num.val(), den.val())
-    { unimplemented!() }
-}
+// non_arkworks_sqrt_ratio_zeta is imported as a stub below: unit min_invsqrt proves isqrt_ok(num, den, r.0, r.1) for every
+// input; isqrt_flag / isqrt_root are the Skolem functions of that (deterministic) implementation.
 pub broadcast proof fn mrepr_m_of(q: P4)
     requires p4_wf(q)
     ensures mrepr(#[trigger] m_of(q)) == q
@@ -74,6 +69,8 @@ def element_unit():
     items.append(Item("src/fields/fq.rs", "impl Fq", [Fn("from_bytes_checked",
         ensures="""match r { Ok(v) => bytes_val(bytes@) < fq_p() && v.val() == bytes_val(bytes@),
                           Err(e) => bytes_val(bytes@) >= fq_p() && e == EncodingError::InvalidEncoding }""")], mode="stub", proved_in="fieldx_fq"))
+    items.append(Item(INV, "impl Fq", [Fn("non_arkworks_sqrt_ratio_zeta",
+        ensures="r.0 == isqrt_flag(num.val(), den.val()), r.1.val() == isqrt_root(num.val(), den.val())")], mode="stub", proved_in="min_invsqrt"))
     I(Fn("new_checked", ensures="""r == (if fadd(fsq(y.val()), fmul(A_(), fsq(x.val()))) == fadd(fsq(z.val()), fmul(D_(), fsq(t.val())))
                 { Some(Element { x, y, z, t }) } else { None })""", props=("C06",), preamble=BUM))
     I(Fn("IDENTITY", as_const=True, ensures="mrepr(Element::IDENTITY) == id4()", props=("C06", "C12")))
@@ -193,5 +190,102 @@ def ops_items():
     return items
 
 
+INVSQRT_LEMMAS = r"""
+pub open spec fn is_sq(a: int) -> bool { exists|y: int| in_fq(y) && #[trigger] fsq(y) == a }
+pub open spec fn QM1H() -> nat { ((fq_p() - 1) / 2) as nat }
+// M-PRIME (Euler's criterion; zeta is a non-square -- proved by compute in unit consts -- so zeta * non-square is a square)
+pub axiom fn m_prime_euler(a: int)
+    requires in_fq(a), a != 0
+    ensures (mpow(fq_p(), a, QM1H()) == 1) <==> is_sq(a),
+            !is_sq(a) ==> is_sq(fmul(ZETA_(), a));
+// (z * di) * d == z whenever d * di == 1
+pub proof fn lemma_cancel(z: int, di: int, d: int)
+    requires in_fq(z), fmul(d, di) == 1
+    ensures fmul(fmul(z, di), d) == z
+{
+    let p = fq_p();
+    vstd::arithmetic::div_mod::lemma_mul_mod_noop_general(z * di, d, p);
+    assert((z * di) * d == z * (d * di)) by(nonlinear_arith);
+    vstd::arithmetic::div_mod::lemma_mul_mod_noop_general(z, d * di, p);
+    vstd::arithmetic::div_mod::lemma_small_mod(z as nat, p as nat);
+    assert(z * 1 == z);
+}
+pub proof fn lemma_fmul_assoc(a: int, b: int, c: int)
+    ensures fmul(fmul(a, b), c) == fmul(a, fmul(b, c))
+{
+    let p = fq_p();
+    vstd::arithmetic::div_mod::lemma_mul_mod_noop_general(a * b, c, p);
+    vstd::arithmetic::div_mod::lemma_mul_mod_noop_general(a, b * c, p);
+    assert((a * b) * c == a * (b * c)) by(nonlinear_arith);
+}
+// M-PRIME: no zero divisors
+pub axiom fn m_prime_no_zero_div(a: int, b: int)
+    requires in_fq(a), in_fq(b), fmul(a, b) == 0
+    ensures a == 0 || b == 0;
+// M-PRIME: a * a^(q-2) == 1 for a != 0 (Fermat)
+pub axiom fn m_prime_fermat(a: int)
+    requires in_fq(a), a != 0
+    ensures fmul(a, finv(a)) == 1, in_fq(finv(a));
+"""
+
+
+def invsqrt_unit():
+    fq = field_params("fq")
+    stubs, lem = opsmod.stub_items("fq")
+    items = list(stubs)
+    P = "fq_p()"
+    S_ = "limbs@"
+    J_ = "(it.index@ as int)"
+    X_ = "self.val()"
+    bu = "broadcast use fq_abs, lemma_bytes_val_bound, lemma_limbs_val_bound;"
+    items.append(Item(INV, "impl Fq", [Fn(
+        "pow_le_limbs", props=("C09", "C10"),
+        ensures=f"r.val() == mpow({P}, {X_}, limbs_val({S_}) as nat)",
+        preamble=bu + f" proof {{ assert({S_}.take(0).len() == 0); lemma_p2_pos(0); reveal_with_fuel(mpow, 2); }}",
+        ghost_iter={0: "it"},
+        subst=[("R4", r'\blimb\s*>>', '*limb >>')],
+        loops={0: f"""invariant acc.val() == mpow({P}, {X_}, limbs_val({S_}.take({J_})) as nat),
+                        insert.val() == mpow({P}, {X_}, p2((64 * it.index@) as nat) as nat)""",
+               1: f"""invariant 0 <= {J_} < {S_}.len(), *limb == {S_}[{J_}], 0 <= i <= 64,
+                        acc.val() == mpow({P}, {X_}, prefix_val({S_}, {J_}, i as u64) as nat),
+                        insert.val() == mpow({P}, {X_}, (p2((64 * it.index@) as nat) * p2(i as nat)) as nat)"""},
+        loops_begin={0: f"proof {{ lemma_prefix_0({S_}, {J_}); }}",
+                     1: "broadcast use fq_abs; let ghost acc0 = acc; let ghost ins0 = insert; let ghost k_ = i as u64; let ghost x_ = *limb; assert(((x_ >> k_) & 1) <= 1) by(bit_vector);"},
+        loops_end={0: f"lemma_prefix_64({S_}, {J_});",
+                   1: f"""lemma_prefix_step({S_}, {J_}, i as u64);
+                let e0 = prefix_val({S_}, {J_}, i as u64);
+                let w = p2((64 * it.index@) as nat) * p2(i as nat);
+                lemma_mpow_add({P}, {X_}, e0 as nat, w as nat);
+                lemma_mpow_add({P}, {X_}, w as nat, w as nat);
+                assert((((*limb >> i) & 1) as int) * w == (if ((*limb >> i) & 1) == 1 {{ w }} else {{ 0 }})) by(nonlinear_arith)
+                    requires ((*limb >> i) & 1) == 0 || ((*limb >> i) & 1) == 1;"""},
+        before_tail=f"assert({S_}.take({S_}.len() as int) =~= {S_});")]))
+    # our_sqrt: constant-time Tonelli-Shanks; its functional contract is M-SQRT (assumed), see DESIGN C09
+    items.append(Item(INV, "impl Fq", [Fn("our_sqrt", requires="is_sq(self.val())", ensures="fsq(r.val()) == self.val()")],
+                      mode="stub", proved_in=""))
+    items.append(Item("src/fields/fq.rs", "impl Fq", [Fn("MODULUS_MINUS_ONE_DIV_TWO_LIMBS", as_const=True, props=("C09", "C17"),
+                      ensures="limbs_val(Fq::MODULUS_MINUS_ONE_DIV_TWO_LIMBS@) == QM1H()", preamble="reveal_with_fuel(limbs_val, 6);")]))
+    items.append(Item(INV, "impl Fq", [Fn(
+        "non_arkworks_sqrt_ratio_zeta", props=("C09", "C12"),
+        ensures="isqrt_ok(num.val(), den.val(), r.0, r.1.val())",
+        preamble=bu + """ proof { if num.val() != 0 && den.val() != 0 {
+                let x = fmul(num.val(), finv(den.val()));
+                m_prime_fermat(den.val());
+                lemma_cancel(num.val(), finv(den.val()), den.val());
+                if x == 0 { m_prime_no_zero_div(num.val(), finv(den.val())); assert(fmul(den.val(), 0) == 0); }
+                m_prime_euler(x);
+                lemma_fmul_assoc(ZETA_(), x, den.val());
+                assert(fmul(ZETA_(), 1) == ZETA_());
+            } }""")]))
+    u = Unit(name="min_invsqrt",
+             preludes=base_preludes() + [("curve_spec.rs", None), ("ladder_lemmas.rs", None), ("pow_lemmas.rs", None)],
+             items=items, lemmas=lem + INVSQRT_LEMMAS + """
+#[verifier::external_body]
+pub exec const ZETA: Fq ensures ZETA.val() == ZETA_() { Fq::dummy_() }
+""", params=fq)
+    u.ufcs_fns = ("pow_le_limbs",)
+    return u
+
+
 def unit(which):
-    return {"element": element_unit}[which]()
+    return {"element": element_unit, "invsqrt": invsqrt_unit}[which]()
